@@ -433,7 +433,7 @@ def round (prog : Program) (fuel : Nat) (st : Source.St) : Round :=
   let visible := st1.pending.filter (!·.invisible)
   let offered := visible.map (fun p => ({ text := p.text, tags := p.tags } : Line))
   let masked := st1.safeExitStands
-  let st2 := { st1 with out := [], fnStarts := [], safeExitNl := none }
+  let st2 := { st1 with out := [], fnStarts := [], safeExit := none }
   match r.1 with
   | .failed kind =>
     { turn := { lines := lines, choices := [] }, st2 := st2, visible := visible,
